@@ -7,6 +7,7 @@ import ast
 from ..guards import Normaliser, canon, facts_at
 from ..index import walk_no_nested
 from ..report import Result
+from ..rules import rc_owner
 from ..source import AnalysisError, src
 
 RECK = "lightworks/interferometers/reck.py"
@@ -262,6 +263,9 @@ def check(ctx) -> Result:
     res.frozen(bool(mode_defs) and src(mode_defs[0].value).replace(" ", "") == "n_modes-j-2", "A-mode-flip-consistent", "Reck.map:mode", mp.site(), mp.qualname, "unit cell j acts on modes (n-j-2, n-j-1)", "unit-cell mode index changed", construct=src(mode_defs[0]) if mode_defs else "")
     endp = [c for c in pscalls if "end_phases" in src(c)]
     res.frozen(bool(endp) and src(endp[0].args[0]).replace(" ", "") == "n_modes-i-1" and src(endp[0].args[1]) == "end_phases[i]", "A-mode-flip-consistent", "Reck.map:end", mp.site(), mp.qualname, "residual phase i goes to mode n-i-1", "residual phases are applied to the wrong modes", construct=src(endp[0]) if endp else "")
+    # ownership: no Reck shares a mutable default with another; mapping keeps nothing between calls
+    rc_owner.c6_no_shared_module_object(ctx, res, [R, ctx.ix.cls("ErrorModel")])
+    rc_owner.c7_stateless_operation(ctx, res, R.methods["map"])
     from ..rules import rz_falsy
     nz = rz_falsy.none_checks(ctx, res, "C14", ())
     res.floor("Z functions scanned", nz, 3)
